@@ -211,7 +211,7 @@ func (r *RowCache) rowsByModels(models []model.Model, useClientIndexes bool) (ma
 			// a condition built from a model only uses an index for which
 			// the model holds a value in every column, unset fields do not
 			// select the rows that have the default value
-			if useClientIndexes && !r.indexUsable(info, indexSpec.columns) {
+			if !r.indexUsable(info, indexSpec.columns) {
 				continue
 			}
 			val, err := valueFromIndex(info, indexSpec.columns)
